@@ -65,6 +65,12 @@ DenFrom(p, U, i, env) ==
     ELSE DenFrom(p, U, i+1, env)
 Den(p, U, env0) == DenFrom(p, U, 1, env0)
 
+\* free signals the parsed circuit may have: inputs and every pin of every instance (unconnected input pins are free too)
+RECURSIVE PinCount(_,_)
+PinCount(p, j) == IF j > Len(p.items) THEN 0
+                  ELSE (IF p.items[j].k = "bb" THEN Len(BBTypeOf(p, p.items[j].type).ins) + Len(BBTypeOf(p, p.items[j].type).outs) ELSE 0)
+                       + PinCount(p, j + 1)
+ExpectedFree(p) == Len(p.inputs) + PinCount(p, 1)
 DrivenNets(p) == {p.items[j].lhs : j \in {x \in 1..Len(p.items) : p.items[x].k = "assign"}}
                  \cup {p.items[j].out : j \in {x \in 1..Len(p.items) : p.items[x].k = "gate"}}
 
@@ -113,7 +119,7 @@ Judge_parse(e) ==
        NetMachinery(r)
        \cup (IF InputNames(r) = Range(p.inputs) THEN {} ELSE {"inputs_differ_from_declaration"})
        \cup (IF OutputNames(r) = Range(p.outputs) THEN {} ELSE {"outputs_differ_from_declaration"})
-       \cup (IF Cardinality(FreeNets(p)) > MaxBits THEN {"MACHINERY:program_too_wide"}
+       \cup (IF ExpectedFree(p) > MaxBits THEN {}     \* too wide for truth tables (never generated): declarations only
              ELSE IF ~r.acyc \/ NFree(r) > MaxBits THEN {"result_cyclic_or_unexpected_free_signals"} ELSE ParseClauses(p, r))
 
 (* ---- two circuits that must agree: round trips (C03, C15 writer) and fast-vs-full parser (C14) ----
